@@ -499,8 +499,17 @@ func cmdCheck(args []string) int {
 		for k, n := range fr.Ctx.assumes {
 			assumptions[k] += n
 		}
-		// vacuity: the precondition is satisfiable and some return is reachable
-		if !vacuityOK(fr, opt) {
+		// vacuity: the precondition is satisfiable and some return is reachable. A function with
+		// a failed obligation is exempt: execution continues under the failed assertion, so a
+		// violated assertion on every path makes the returns unreachable by construction - that
+		// is the violation reported below, not an empty contract.
+		anyFailed := false
+		for _, o := range fr.Obls {
+			if o.Result != "unsat" {
+				anyFailed = true
+			}
+		}
+		if !anyFailed && !vacuityOK(fr, opt) {
 			fmt.Printf("ERROR %s: vacuous contract (precondition unsatisfiable or no reachable return)\n", shortKey(fr.Key))
 			toolErr = true
 		}
